@@ -722,7 +722,11 @@ theorem soft_wtrans {b b' : BState} (hb : BInv b) (h : WTrans b b') : SoftStep b
 
 theorem soft_strans {b b' : BState} (h : STrans b b') : SoftStep b.g.store b'.g.store := by
   cases h
-  case store => simp only [sweepNext_g, applyEvict_store]; exact SoftStep.del _ _
+  case store =>
+    simp only [sweepNext_g, Cached.applyEvictId_store]
+    split
+    · exact SoftStep.del _ _
+    · exact SoftStep.refl _
   all_goals simp only [sweepNext_g]
   all_goals exact SoftStep.refl _
 
